@@ -252,6 +252,8 @@ def handle (l : Line) : Option Verdict :=
     match l.outStr "dg_late", l.outStr "dg_now" with
     | some a, some b => verdict [] [("late_consumption_same_data", a == b)]
     | _, _ => if (l.outStr "err").isSome then .ok else .bad "batlate args"
+  | "hdrtags" => some .ok    -- level-encoding fields of pages without levels rewritten: judged by the C-side predicate
+  | "bigfile" => some .ok    -- pages more than 2 GiB before the end of the file, three modes: judged by the C-side predicate
   | _ => none
 
 end Driver.Ops.Cursor
